@@ -57,6 +57,7 @@ class MirFn:
         self.header = header
         self.types = {}
         self.blocks = {}
+        self.debug = []
         cur = None
         for m in re.finditer(r"(_\d+): ([^,()]+(?:<[^()]*>)?)", header[header.index("("):]):
             self.types.setdefault(m.group(1), m.group(2).strip())
@@ -65,6 +66,10 @@ class MirFn:
             m = re.match(r"let (?:mut )?(_\d+): (.+);$", s)
             if m:
                 self.types[m.group(1)] = m.group(2)
+                continue
+            m = re.match(r"debug (\w+) => (_\d+);$", s)
+            if m:
+                self.debug.append((m.group(1), m.group(2)))
                 continue
             m = re.match(r"(bb\d+)(?: \(cleanup\))?: \{$", s)
             if m:
@@ -102,8 +107,22 @@ def find_fn(mir, pred):
 
 class Val:
     """scalar: (term, ty); tuple: fields; opaque: unknown aggregate/pointer"""
-    def __init__(self, term=None, ty=None, fields=None, opaque=False):
-        self.term, self.ty, self.fields, self.opaque = term, ty, fields, opaque
+    def __init__(self, term=None, ty=None, fields=None, opaque=False, named=None):
+        # ty == "slice": `term` is the LENGTH of the slice / array behind a reference (usize)
+        self.term, self.ty, self.fields, self.opaque, self.named = term, ty, fields, opaque, named
+
+
+def slice_len_of_type(ty):
+    """reference types whose pointee has a length: &[T], &mut [T], &[T; N] with literal N"""
+    if not ty:
+        return None
+    m = re.match(r"&(?:'\w+ )?(?:mut )?\[[^;\]]+\]$", ty.strip())
+    if m:
+        return "?"
+    m = re.match(r"&(?:'\w+ )?(?:mut )?\[[^;\]]+; (\d+)(?:_usize)?\]$", ty.strip())
+    if m:
+        return int(m.group(1))
+    return None
 
 
 def bv(n, bits):
@@ -186,10 +205,26 @@ class Path:
         self.obligs = []        # (msg, term that must hold)
         self.trace = []
         self.marks = {}
+        self.mem = {}           # tracked places behind a reference: "(*_1).4" -> Val
+        self.escaped = set()    # ... whose address was taken mutably: every read is fresh
+
+    def clone(self):
+        q = Path()
+        q.env = {k: Val(v.term, v.ty, list(v.fields) if v.fields is not None else None,
+                        v.opaque, dict(v.named) if v.named is not None else None)
+                 for k, v in self.env.items()}
+        q.mem = dict(self.mem)
+        q.escaped = set(self.escaped)
+        q.cond, q.obligs, q.trace = list(self.cond), list(self.obligs), list(self.trace)
+        q.marks = dict(self.marks)
+        return q
 
 
 class Exec:
-    def __init__(self, fn, named_calls, stop_call, end_call):
+    def __init__(self, fn, named_calls, stop_call, end_call, consts=None, stop_store=None):
+        self.consts = consts          # resolver of named constants (or None)
+        self.stop_store = stop_store  # regex of a place: the path ends after a store to it
+        self.paths_ret = []           # paths that ended in `return`
         self.fn = fn
         self.decls = {}         # smt name -> sort
         self.havocs = []        # statements over-approximated
@@ -202,6 +237,14 @@ class Exec:
 
     def fresh(self, ty, hint):
         srt = sort_of(ty)
+        sl = slice_len_of_type(ty)
+        if sl == "?":
+            self.nfresh += 1
+            name = "h%d_len%s" % (self.nfresh, re.sub(r"\W", "", hint)[:12])
+            self.decls[name] = "(_ BitVec 64)"
+            return Val(name, "slice")
+        if sl is not None:
+            return Val(bv(sl, 64), "slice")
         if srt is None:
             return Val(opaque=True)
         self.nfresh += 1
@@ -212,6 +255,13 @@ class Exec:
     def input(self, local):
         ty = self.fn.types.get(local)
         srt = sort_of(ty) if ty else None
+        sl = slice_len_of_type(ty)
+        if sl == "?":
+            name = "len_in" + local
+            self.decls[name] = "(_ BitVec 64)"
+            return Val(name, "slice")
+        if sl is not None:
+            return Val(bv(sl, 64), "slice")
         if srt is None:
             return Val(opaque=True)
         name = "in" + local
@@ -238,6 +288,17 @@ class Exec:
             mm = re.match(r"(-?\d+)_(\w+)$", c)
             if mm and mm.group(2) in INT_BITS:
                 return Val(bv(int(mm.group(1)), INT_BITS[mm.group(2)]), mm.group(2))
+            mm = re.match(r"core::num::<impl (\w+)>::(MAX|MIN)$", c)
+            if mm and mm.group(1) in INT_BITS:
+                ty, bits = mm.group(1), INT_BITS[mm.group(1)]
+                sg = not ty.startswith("u")
+                v = ((1 << (bits - 1)) - 1 if sg else (1 << bits) - 1) if mm.group(2) == "MAX" \
+                    else (-(1 << (bits - 1)) if sg else 0)
+                return Val(bv(v, bits), ty)
+            if self.consts is not None:
+                v = self.consts(c)
+                if v is not None:
+                    return v
             mm = re.match(r"(-?[\d.]+(?:[eE][-+]?\d+)?)(f32|f64)$", c)
             if mm:
                 from fractions import Fraction
@@ -265,6 +326,17 @@ class Exec:
                 return base.fields[k]
             self.havocs.append("field read " + pl)
             return self.fresh(ty, "fld")
+        m = re.match(r"\(\(\*(_\d+)\)\.(\d+): ([^()]+)\)$", pl)
+        if m and sort_of(m.group(3).strip()):
+            key, ty = "(*%s).%s" % (m.group(1), m.group(2)), m.group(3).strip()
+            if key in p.escaped:
+                self.havocs.append("read of escaped place " + key)
+                return self.fresh(ty, "esc")
+            if key not in p.mem:
+                name = "m%s_%s" % (m.group(1), m.group(2))
+                self.decls[name] = sort_of(ty)
+                p.mem[key] = Val(name, ty)
+            return p.mem[key]
         # deref or deeper projection: unknown memory
         m = re.search(r": ([^():]+)\)$", pl)
         ty = m.group(1).strip() if m else want_ty
@@ -305,6 +377,32 @@ class Exec:
             return Val(fields=[self.operand(p, x) for x in split_top(rv[1:-1])])
         if re.match(r"(copy|move|const) ", rv):
             return self.operand(p, rv, dst_ty)
+        m = re.match(r"PtrMetadata\((.+)\)$", rv)
+        if m:
+            a = self.operand(p, m.group(1))
+            if a.ty == "slice":
+                return Val(a.term, "usize")
+            self.havocs.append("PtrMetadata of unknown pointer")
+            return self.fresh("usize", "meta")
+        m = re.match(r"[\w:<>, ]+? \{ (.*) \}$", rv)
+        if m:   # struct aggregate with named fields (ranges)
+            named = {}
+            for part in split_top(m.group(1)):
+                k, _, v = part.partition(":")
+                named[k.strip()] = self.operand(p, v.strip())
+            return Val(named=named)
+        m = re.match(r"&(mut )?\(\(\*(_\d+)\)\.(\d+): ([^()]+)\)$", rv)
+        if m:
+            key = "(*%s).%s" % (m.group(2), m.group(3))
+            if m.group(1):
+                # a mutable borrow of a field: whoever holds it may write that field (and, in safe
+                # Rust, nothing else of the struct)
+                p.escaped.add(key)
+                p.mem.pop(key, None)
+            sl = slice_len_of_type("&" + m.group(4).strip())
+            if isinstance(sl, int):
+                return Val(bv(sl, 64), "slice")
+            return Val(opaque=True)
         # anything else (references, aggregates of other kinds, discriminants, ...): havoc
         self.havocs.append("rvalue " + rv[:80])
         return self.fresh(dst_ty or "?", "rv")
@@ -369,6 +467,14 @@ class Exec:
         if m and m.group(1) in p.env and p.env[m.group(1)].fields is not None:
             p.env[m.group(1)].fields[int(m.group(2))] = val
             return
+        m = re.match(r"\(\(\*(_\d+)\)\.(\d+): ([^()]+)\)$", place)
+        if m and val.term is not None and val.ty != "slice":
+            key = "(*%s).%s" % (m.group(1), m.group(2))
+            if key not in p.escaped:
+                p.mem[key] = val
+                if self.stop_store and re.search(self.stop_store, place):
+                    p.marks["stored"] = key
+                return
         # store through a pointer or into an unknown aggregate: tracked locals are never
         # address-taken (those are havocked on every read), so nothing tracked changes
         self.havocs.append("store " + place[:60])
@@ -381,6 +487,53 @@ class Exec:
                 return self.fresh(dst_ty, "call")
             return Val("(%s %s %s)" % ({"mul": "bvmul", "add": "bvadd", "sub": "bvsub"}[m.group(2)],
                                        a.term, b.term), m.group(1))
+        if re.search(r"intrinsics::(un)?likely$", callee) and len(args) == 1:
+            return self.operand(p, args[0])
+        m = re.match(r"<(u\d+) as TryFrom<(usize|u\d+)>>::try_from$", callee)
+        if m and len(args) == 1:
+            a = self.operand(p, args[0])
+            if a.term is not None and a.ty in INT_BITS:
+                return Val(named={"tryfrom": a, "to": m.group(1)})
+        if re.match(r"Result::<u\d+, TryFromIntError>::unwrap_or$", callee) and len(args) == 2:
+            r, d = self.operand(p, args[0]), self.operand(p, args[1], dst_ty)
+            if r.named and "tryfrom" in r.named and d.term is not None:
+                src, to = r.named["tryfrom"], r.named["to"]
+                sb, tb = INT_BITS[src.ty], INT_BITS[to]
+                if tb >= sb:
+                    return Val(int_cast(src.term, src.ty, to), to)
+                fits = "(bvule %s %s)" % (src.term, bv((1 << tb) - 1, sb))
+                return Val("(ite %s %s %s)" % (fits, int_cast(src.term, src.ty, to), d.term), to)
+        m = re.match(r"<\[u8(?:; \d+)?\] as Index(Mut)?<(?:std::ops::)?(Range|RangeTo|RangeFrom)<usize>>>::"
+                     r"index(_mut)?$", callee)
+        if m and len(args) == 2:
+            a, r = self.operand(p, args[0]), self.operand(p, args[1])
+            if a.ty == "slice" and r.named:
+                n = a.term
+                z = bv(0, 64)
+                st = r.named["start"].term if "start" in r.named else z
+                en = r.named["end"].term if "end" in r.named else n
+                if st is not None and en is not None:
+                    good = "(and (bvule %s %s) (bvule %s %s))" % (st, en, en, n)
+                    p.obligs.append(("slice index %s out of range" % m.group(2), good, list(p.cond)))
+                    p.cond.append(good)
+                    return Val("(bvsub %s %s)" % (en, st), "slice")
+        if re.match(r"core::slice::<impl \[u8\]>::copy_from_slice$", callee) and len(args) == 2:
+            a, b = self.operand(p, args[0]), self.operand(p, args[1])
+            if a.ty == "slice" and b.ty == "slice":
+                good = "(= %s %s)" % (a.term, b.term)
+                p.obligs.append(("copy_from_slice: source and destination lengths differ", good,
+                                 list(p.cond)))
+                p.cond.append(good)
+                return Val(opaque=True)
+        # an unmodelled callee may write through every `&mut` it receives: forget what is tracked
+        # behind a reference local that is passed on
+        for a in args:
+            mm = re.match(r"(?:copy|move) (_\d+)$", a.strip())
+            if mm:
+                for key in [k for k in p.mem if k.startswith("(*%s)." % mm.group(1))]:
+                    self.havocs.append("call may write " + key)
+                    del p.mem[key]
+                    p.escaped.add(key)
         for pat, name in self.named_calls:
             if re.search(pat, callee + "(" + ", ".join(args) + ")"):
                 self.decls[name] = sort_of(dst_ty) or "Bool"
@@ -410,7 +563,12 @@ class Exec:
         stmts = self.fn.blocks[bb]
         for s in stmts[:-1]:
             self.stmt(p, s)
+            if "stored" in p.marks:
+                self.paths_done.append(p)
+                return None
         t = stmts[-1]
+        if t == "return;":
+            self.paths_ret.append(p)
         if t in ("return;", "unreachable;", "resume;") or t.startswith("drop("):
             if t.startswith("drop("):
                 m = re.search(r"return: (bb\d+)", t)
@@ -442,11 +600,8 @@ class Exec:
             if other:
                 arms.append(("(not (or false %s))" % " ".join(conds), other))
             for c, tgt in arms[1:]:
-                q = Path()
-                q.env = {k: (Val(v.term, v.ty, list(v.fields) if v.fields is not None else None,
-                                 v.opaque)) for k, v in p.env.items()}
-                q.cond, q.obligs, q.trace = p.cond + [c], list(p.obligs), list(p.trace)
-                q.marks = dict(p.marks)
+                q = p.clone()
+                q.cond.append(c)
                 work.append((tgt, q))
             p.cond.append(arms[0][0])
             return arms[0][1]
@@ -462,9 +617,9 @@ class Exec:
         m = re.match(r"(.+?) = (.+?)\((.*)\) -> \[return: (bb\d+)", t)
         if m:
             place, callee, args, ret = m.group(1), m.group(2).strip(), split_top(m.group(3)), m.group(4)
-            if re.search(self.stop_call, callee):
+            if self.stop_call and re.search(self.stop_call, callee):
                 p.marks["stop"] = [self.operand(p, a) for a in args]
-            if re.search(self.end_call, callee):
+            if self.end_call and re.search(self.end_call, callee):
                 p.marks["end"] = [self.operand(p, a) for a in args]
                 self.paths_done.append(p)
                 return None
@@ -803,6 +958,294 @@ def run_check(crate_dir, target_dir, logdir, timeout=120, log=print):
 
 
 _LAST = {}
+
+# ------------------------------------------------------------------ named constants from the MIR
+
+def make_const_resolver(mir, obligs_out):
+    """`const <path>::NAME` -> closed SMT term, by executing the constant's own MIR body (found by
+    its last path segment; all items of that name must evaluate to the same term)"""
+    cache = {}
+
+    def resolve(c):
+        name = c.rsplit("::", 1)[-1].strip()
+        if not re.match(r"[A-Z_][A-Z0-9_]*$", name):
+            return None
+        if name in cache:
+            return cache[name]
+        cache[name] = None
+        vals = []
+        for m in re.finditer(r"^const ([^\n]*?)::%s: (\w+) = (const [^;\n]+;|\{)" % name, mir, re.M):
+            if m.group(3).startswith("const"):
+                mm = re.match(r"(-?\d+)_(\w+)$", m.group(3)[6:-1].strip())
+                if not mm or mm.group(2) not in INT_BITS:
+                    return None
+                vals.append(Val(bv(int(mm.group(1)), INT_BITS[mm.group(2)]), mm.group(2)))
+                continue
+            end = mir.index("\n}\n", m.end())
+            fn = MirFn("const()", mir[m.end():end].splitlines())
+            ex = Exec(fn, [], None, None, consts=resolve)
+            try:
+                ex.run("bb0")
+            except Unsupported:
+                return None
+            if len(ex.paths_ret) != 1 or ex.decls:
+                return None
+            v = ex.paths_ret[0].env.get("_0")
+            if v is None or v.term is None:
+                return None
+            vals.append(v)
+            obligs_out.extend(("const %s: %s" % (name, msg), good, cond)
+                              for msg, good, cond in ex.paths_ret[0].obligs)
+        if not vals or len({(v.term, v.ty) for v in vals}) != 1:
+            return None
+        cache[name] = vals[0]
+        return vals[0]
+
+    return resolve
+
+
+# ------------------------------------------------------------------ C11: length arithmetic of update
+
+MAXL_SPEC = (1 << 32) - 4      # MAX_LEN = u32::MAX - 3 (property C11, mechanism)
+N_REPLAY = 1 << 33             # a counterexample with a longer slice cannot be replayed here
+
+
+def encode_update(mir):
+    obl = []
+    consts = make_const_resolver(mir, obl)
+    # which fields are `len` and `tail_len`: processed_len() is `len.checked_add(tail_len)`
+    pl = find_fn(mir, lambda h: "::processed_len(" in h and "_1: &generate::inner::Generator<" in h)
+    if len(pl) != 1:
+        raise Unsupported("expected one inner processed_len in the MIR, found %d" % len(pl))
+    txt = "\n".join("\n".join(b) for b in pl[0].blocks.values())
+    m = re.search(r"checked_add\((?:move|copy) (_\d+), (?:move|copy) (_\d+)\)", txt)
+    if not m:
+        raise Unsupported("processed_len is not a checked_add of two fields")
+    idx = []
+    for loc in m.groups():
+        mm = re.search(r"%s = copy \(\(\*_1\)\.(\d+): u32\);" % re.escape(loc), txt)
+        if not mm:
+            raise Unsupported("processed_len operand is not a u32 field of self")
+        idx.append(int(mm.group(1)))
+    li, ti = idx
+    fns = find_fn(mir, lambda h: re.match(r"fn generate::inner::<impl at [^>]*>::update\(", h)
+                  and "_1: &mut generate::inner::Generator<" in h)
+    if len(fns) != 1:
+        raise Unsupported("expected one inner update in the MIR, found %d" % len(fns))
+    fn = fns[0]
+    ex = Exec(fn, [], None, None, consts=consts,
+              stop_store=r"\(\(\*_1\)\.%d: u32\)" % li)
+    ex.run("bb0")
+    data_locals = [l for n, l in fn.debug if n == "data"]
+    return fn, ex, li, ti, data_locals, obl
+
+
+def run_check_len(crate_dir, target_dir, logdir, timeout=120, mir=None):
+    t0 = time.time()
+    res = {"verdict": "undecided", "reason": "", "queries": [], "solver_s": 0.0,
+           "functions": "generate::inner::Generator::update (MIR from entry to the store of the new "
+                        "`len`: tail fill, saturation test, u32::try_from(data.len()).unwrap_or, "
+                        "truncation of the crossing piece, `len += data_len`), the constants "
+                        "MAX_LEN/TAIL_SIZE/WINDOW_SIZE (their own MIR bodies), processed_len (field "
+                        "identification); generic MIR shared by all five variants",
+           "bound": "loop-free prefix, every path; ALL states len <= 2^32-4, tail_len <= 4 and ALL "
+                    "slice lengths 0..2^63-1 (incl. >= 2^32: the unwrap_or arm); one inductive step "
+                    "of `len + tail_len == min(bytes fed, 2^32)`; the per-byte loop after the "
+                    "store is outside (Kani lemmas S, lenb_*)",
+           "assumptions": "representation invariant as precondition: tail_len <= 4, len <= 2^32-4, "
+                          "tail_len < 4 => len == 0 (re-established by every path); slice length "
+                          "<= isize::MAX; a callee can only write through the `&mut` it receives "
+                          "(safe Rust); statements outside the translator's fragment are havocked"}
+    try:
+        if mir is None:
+            mir = dump_mir(crate_dir, target_dir, os.path.join(logdir, "mir-dump-len.log"))
+        fn, ex, li, ti, data_locals, const_obl = encode_update(mir)
+    except Unsupported as e:
+        res["reason"] = "MIR outside the translator's fragment: %s" % e
+        return res
+    kl, kt = "(*_1).%d" % li, "(*_1).%d" % ti
+    L0, T0, N = "m_1_%d" % li, "m_1_%d" % ti, "len_in_2"
+    for nm, srt in ((L0, "(_ BitVec 32)"), (T0, "(_ BitVec 32)"), (N, "(_ BitVec 64)")):
+        ex.decls.setdefault(nm, srt)
+    res["paths"] = len(ex.paths_done) + len(ex.paths_ret)
+    res["havocked"] = sorted(set(ex.havocs))
+    res["fields"] = {"len": li, "tail_len": ti}
+    if not ex.paths_done or not ex.paths_ret:
+        res["reason"] = "the prefix of update has no path storing `len` or no early return"
+        return res
+    pre = ["(bvule %s %s)" % (T0, bv(4, 32)), "(bvule %s %s)" % (L0, bv(MAXL_SPEC, 32)),
+           "(=> (bvult %s %s) (= %s %s))" % (T0, bv(4, 32), L0, bv(0, 32)),
+           "(bvule %s %s)" % (N, bv((1 << 63) - 1, 64))]
+    head = "(set-logic ALL)\n(set-option :produce-models true)\n" + decls_text(ex)
+    getv = "(get-value (%s %s %s))\n" % (L0, T0, N)
+    verdicts = []
+    cex = [None]
+
+    def z(t, bits):
+        return "((_ zero_extend %d) %s)" % (72 - bits, t)
+
+    def ask(kind, pidx, what, assertions, expect, replayable_split=False):
+        variants = [("", assertions)]
+        if replayable_split:
+            # a counterexample that is cheap to replay is looked for first: short slice, or a state
+            # next to the saturation mark (the real code then hashes few bytes)
+            cheap = "(or (bvule %s %s) (bvuge %s %s))" % (N, bv(1 << 20, 64), L0,
+                                                         bv(MAXL_SPEC - (1 << 20), 32))
+            variants = [(" [cheap replay]", assertions + ["(bvule %s %s)" % (N, bv(N_REPLAY, 64)), cheap]),
+                        (" [slice <= 8 GiB]", assertions + ["(bvule %s %s)" % (N, bv(N_REPLAY, 64)),
+                                                            "(not %s)" % cheap]),
+                        (" [slice > 8 GiB]", assertions + ["(bvugt %s %s)" % (N, bv(N_REPLAY, 64))])]
+        worst = "ok"
+        for tag, asr in variants:
+            script = head + "".join("(assert %s)\n" % a for a in asr) + "(check-sat)\n"
+            r = solve(script, timeout)
+            got = combine({k: v[0] for k, v in r.items()})
+            if expect == "unsat" and got == "sat":
+                r2 = solve(script + getv, timeout)
+                for k in r:
+                    if r2[k][0] == "sat":
+                        r[k] = r2[k]
+            answers = {k: v[0] for k, v in r.items()}
+            secs = max(v[2] for v in r.values())
+            res["solver_s"] += secs
+            if got == "inconclusive":
+                v = "inconclusive"
+            elif expect is None or got == expect:
+                v = "ok"
+            elif expect == "unsat":
+                if tag == " [slice > 8 GiB]":
+                    v = "refuted-unreplayable"
+                else:
+                    v = "refuted"
+                    if cex[0] is None:
+                        txt = max((x[1] for x in r.values() if x[0] == "sat"), key=len)
+                        cex[0] = {"query": "%s path %d: %s" % (kind, pidx, what),
+                                  "model": parse_model(txt)}
+            else:
+                v = "vacuous"
+            res["queries"].append({"kind": kind, "path": pidx, "what": what + tag, "expect": expect,
+                                   "answers": answers, "seconds": round(secs, 2), "verdict": v})
+            with open(os.path.join(logdir, "mirlen-%03d.smt2" % len(res["queries"])), "w") as f:
+                f.write("; %s path %d: %s%s (expect %s) -> %s\n" % (kind, pidx, what, tag, expect, answers))
+                f.write(script)
+            verdicts.append(v)
+            if v != "ok":
+                worst = v
+        return worst
+
+    for msg, good, cond in const_obl:
+        ask("safety", -1, msg[:70], cond + ["(not %s)" % good], "unsat")
+    allp = [("store", p) for p in ex.paths_done] + [("return", p) for p in ex.paths_ret]
+    feasible = {"store": 0, "return": 0}
+    tot0 = "(bvadd %s %s)" % (z(L0, 32), z(T0, 32))
+    totn = "(bvadd %s %s)" % (tot0, z(N, 64))
+    cap = bv(1 << 32, 72)
+    expected = "(ite (bvule %s %s) %s %s)" % (totn, cap, totn, cap)
+    for i, (kind, p) in enumerate(allp):
+        if cex[0] is not None:
+            break
+        if kl in p.escaped or kt in p.escaped:
+            res["reason"] = "path %d: `len`/`tail_len` escape through a mutable borrow" % i
+            return res
+        L1 = p.mem[kl].term if kl in p.mem else L0
+        T1 = p.mem[kt].term if kt in p.mem else T0
+        pc = pre + p.cond
+        w = ask("witness", i, "is the %s path feasible under the invariant?" % kind, pc, None)
+        if w != "ok":
+            continue
+        if combine(res["queries"][-1]["answers"]) != "sat":
+            continue        # infeasible under the invariant: nothing to show
+        feasible[kind] += 1
+        for msg, good, cond_at in p.obligs:
+            ask("safety", i, msg[:70], pre + cond_at + ["(not %s)" % good], "unsat", True)
+        tot1 = "(bvadd %s %s)" % (z(L1, 32), z(T1, 32))
+        posts = [("len + tail_len == min(fed before + slice length, 2^32)", "(= %s %s)" % (tot1, expected)),
+                 ("tail_len' <= 4 and len' <= 2^32-4",
+                  "(and (bvule %s %s) (bvule %s %s))" % (T1, bv(4, 32), L1, bv(MAXL_SPEC, 32))),
+                 ("tail_len' < 4 => len' == len", "(=> (bvult %s %s) (= %s %s))" % (T1, bv(4, 32), L1, L0))]
+        if kind == "return":
+            posts.append(("early return leaves len unchanged", "(= %s %s)" % (L1, L0)))
+        else:
+            posts.append(("the tail is full when len is stored", "(= %s %s)" % (T1, bv(4, 32))))
+            dl = [p.env[l] for l in data_locals if l in p.env and p.env[l].ty == "slice"]
+            if dl:
+                posts.append(("remaining slice length == len' - len (bytes handed to the loop)",
+                              "(= %s ((_ zero_extend 32) (bvsub %s %s)))" % (dl[-1].term, L1, L0)))
+            else:
+                res["reason"] = "path %d: cannot find the `data` slice at the store of len" % i
+                return res
+        for what, post in posts:
+            ask("post", i, what, pc + ["(not %s)" % post], "unsat", True)
+    # coverage witnesses over all paths: the crossing piece and the >= 4 GiB slice are reachable
+    def some_path(extra):
+        return "(or false %s)" % " ".join("(and true %s)" % " ".join(p.cond) for _, p in allp if True) \
+            if not extra else extra
+    anyp = "(or false %s)" % " ".join("(and true %s)" % " ".join(p.cond) for _, p in allp)
+    if cex[0] is None:
+        ask("coverage", -1, "some path takes a piece that crosses the 2^32-4 mark",
+            pre + [anyp, "(bvugt %s %s)" % (totn, cap), "(bvult %s %s)" % (L0, bv(MAXL_SPEC, 32))], "sat")
+        ask("coverage", -1, "some path takes a slice of 2^32 bytes or more",
+            pre + [anyp, "(bvuge %s %s)" % (N, bv(1 << 32, 64))], "sat")
+        ask("coverage", -1, "every state of the invariant and every slice length is accepted by some path",
+            pre + ["(not %s)" % anyp], "unsat")
+    res["solver_s"] = round(res["solver_s"], 2)
+    res["wall_s"] = round(time.time() - t0, 1)
+    res["feasible_paths"] = feasible
+    _LAST.update({"len": {"ex": ex, "allp": allp, "names": (L0, T0, N), "keys": (kl, kt)}})
+    if "refuted" in verdicts:
+        res["verdict"] = "fail"
+        res["cex"] = cex[0]
+        res["reason"] = "solver found a state and a slice length for which the MIR breaks the " \
+                        "length invariant: %s" % cex[0]
+    elif not feasible["store"] or not feasible["return"]:
+        res["reason"] = "no feasible storing / returning path (%s)" % feasible
+    elif any(v != "ok" for v in verdicts):
+        res["reason"] = "queries not decided as expected: %s" % \
+            [q for q in res["queries"] if q["verdict"] != "ok"][:3]
+    else:
+        res["verdict"] = "pass"
+    return res
+
+
+def replay_values_len(res):
+    """(len, tail_len, slice length) of the counterexample"""
+    m = res["cex"]["model"]
+    f = res["fields"]
+    return m.get("m_1_%d" % f["len"], 0), m.get("m_1_%d" % f["tail_len"], 0), m.get("len_in_2", 0)
+
+
+def validate_len_against(table, logdir, timeout=60):
+    """table: (L, T, N) -> (L', T') from the real code; the encoding must produce the same"""
+    d = _LAST["len"]
+    ex, allp, (L0, T0, N), (kl, kt) = d["ex"], d["allp"], d["names"], d["keys"]
+    head = "(set-logic ALL)\n(set-option :produce-models true)\n" + decls_text(ex)
+    bad = []
+    for i, (_k, p) in enumerate(allp):
+        L1 = p.mem[kl].term if kl in p.mem else L0
+        T1 = p.mem[kt].term if kt in p.mem else T0
+        alts = []
+        for (l, t, n), (l1, t1) in sorted(table.items()):
+            alts.append("(and (= %s %s) (= %s %s) (= %s %s) (or (distinct %s %s) (distinct %s %s)))" % (
+                L0, bv(l, 32), T0, bv(t, 32), N, bv(n, 64), L1, bv(l1, 32), T1, bv(t1, 32)))
+        script = head + "".join("(assert %s)\n" % c for c in p.cond) + \
+            "(assert (or false %s))\n(check-sat)\n" % " ".join(alts)
+        r = solve(script, timeout)
+        got = combine({k: v[0] for k, v in r.items()})
+        if got == "sat":
+            r2 = solve(script + "(get-value (%s %s %s))\n" % (L0, T0, N), timeout)
+            txt = max((x[1] for x in r2.values() if x[0] == "sat"), key=len, default="")
+            bad.append("path %d: encoding differs from the real code at %s" % (i, parse_model(txt)))
+        elif got != "unsat":
+            bad.append("path %d: validation query inconclusive" % i)
+    anyp = "(or false %s)" % " ".join("(and true %s)" % " ".join(p.cond) for _, p in allp)
+    for (l, t, n) in sorted(table):
+        script = head + "(assert (= %s %s))\n(assert (= %s %s))\n(assert (= %s %s))\n(assert %s)\n(check-sat)\n" % (
+            L0, bv(l, 32), T0, bv(t, 32), N, bv(n, 64), anyp)
+        r = solve(script, timeout)
+        if combine({k: v[0] for k, v in r.items()}) != "sat":
+            bad.append("no path of the encoding accepts %s" % ((l, t, n),))
+    return bad
+
 
 
 def validate_against(table, logdir, timeout=60):
